@@ -174,8 +174,10 @@ def check_ro(ro, viol):
                         if o4 and v != exp:
                             viol.append(('C15', 'item.%s is %r, the XML says %r' % (name, v, exp)))
                     o4, v = acc('item.note', lambda: i.note)
-                    nt = x.find(".//studioCommand[@type='note']")
-                    exp = nt.find('text').text if nt is not None and nt.find('text') is not None and x.find('mosExternalMetadata') is not None else None
+                    md_ = x.find('mosExternalMetadata')
+                    pl_ = md_.find('mosPayload') if md_ is not None else None
+                    nt = next((e for e in pl_.iter('studioCommand') if e is not pl_ and e.get('type') == 'note'), None) if pl_ is not None else None
+                    exp = nt.find('text').text if nt is not None and nt.find('text') is not None else None
                     if o4 and v != exp:
                         viol.append(('C15', 'item.note is %r, the XML says %r' % (v, exp)))
             o2, sc = acc('story[%d].script' % k, lambda: so.script)
@@ -226,6 +228,17 @@ def gen_ros(tier, rng):
     for k in range(0, len(PARAS), 3):
         out.append(ro_doc([story('A', 'sd', items=items[:2] + items[4:], paras=PARAS[k:k + 3]), story('B', 'tt', items=items[2:], paras=PARAS[k + 1:k + 5], n=3)]))
     out.append(ro_doc([story('A', 'sd', items=items, paras=PARAS)]))
+    # <p> elements that are not children of the story (inside item metadata, inside other story children): never script or body
+    deep = ('<item><itemID>7</itemID><mosExternalMetadata><mosPayload><p>nested in item metadata</p><x><p>deeper</p></x></mosPayload>'
+            '</mosExternalMetadata></item>')
+    st2 = story('B', 'tt', items=[deep], paras=['spoken'], n=2).replace('<other>x</other>', '<other><p>nested in other</p></other>')
+    out.append(ro_doc([story('A', 'sd', items=[deep, items[0]], paras=['one', 'two', '(note)']), st2]))
+    # several studioCommands in one item: the note is the one of type "note", wherever it sits
+    def cmds(*kinds):
+        return ('<item><itemID>c%d</itemID><mosExternalMetadata><mosPayload><studioCommands>%s</studioCommands></mosPayload></mosExternalMetadata></item>' % (
+            len(kinds), ''.join('<studioCommand type="%s"><text>%s text</text></studioCommand>' % (k, k) for k in kinds)))
+    out.append(ro_doc([story('A', 'sd', items=[cmds('camera', 'note'), cmds('note', 'camera'), cmds('camera', 'light', 'note', 'x'), cmds('camera')],
+                             paras=['p'])]))
     return out
 
 
@@ -239,23 +252,15 @@ def search_accessors(prop, tier, rng):
     docs = gen_ros(tier, rng)
     seen = set()
     for doc in docs:
-        states = [('initial', doc)]
-        ro = RunningOrder.from_string(doc)
-        # states reached by merges (inserted / re-sent stories without timing metadata)
-        with warnings.catch_warnings():
-            warnings.simplefilter('ignore')
-            for kind, a in HISTORY:
-                try:
-                    ro += MosFile.from_string(msg(kind, **a)[0])
-                except Exception:
-                    pass
-        states.append(('after %d merges' % len(HISTORY), str(ro)))
-        for label, d in states:
+        for stage, label in enumerate(('initial', 'same object after %d merges' % len(HISTORY), 'same object after roReplace')):
             n += 1
             viol = []
             try:
-                check_ro(RunningOrder.from_string(d), viol)
+                ro = _acc_state(doc, stage)
+                d = str(ro)
+                check_ro(ro, viol)
             except Exception as e:
+                d = doc
                 viol.append(('C15', 'harness: %s %s' % (type(e).__name__, e)))
             for p, what in viol:
                 if p != prop:
@@ -265,12 +270,33 @@ def search_accessors(prop, tier, rng):
                     continue
                 seen.add(sig)
                 if len(failures) < 10:
-                    failures.append({'property': prop, 'fn': 'mosromgr.moselements', 'ro': d, 'state': label, 'what': '%s (%s)' % (what, label),
-                                     'input_sha': _sha(d), 'api': 'RunningOrder.from_string(ro) and its documented accessors'})
-    return {'evaluations': n, 'distinct': len(docs) * 2, 'failures': failures,
+                    failures.append({'property': prop, 'fn': 'mosromgr.moselements', 'ro': d, 'initial': doc, 'stage': stage, 'state': label,
+                                     'what': '%s (%s)' % (what, label), 'input_sha': _sha(doc + str(stage)),
+                                     'api': 'ro = RunningOrder.from_string(initial); read accessors; merge the history of that stage into the '
+                                            'same object; compare every documented accessor with a direct read of ro.xml'})
+    return {'evaluations': n, 'distinct': len(docs) * 3, 'failures': failures,
             'rule': 'running orders over every duration kind x explicit start/end x roEdStart present/absent, mixed sequences of 0..3 stories, duplicate / blank '
-                    'story ids, item fields present/absent, 11 paragraph shapes; each also after a 5-merge history; oracle = direct read of the XML',
+                    'story ids, item fields present/absent, 11 paragraph shapes; nested <p> below items and metadata; each also on the same object after a 5-merge history and after a further roReplace (accessors read before every step); oracle = direct read of the XML',
             'summary': {'short': '%d running-order states, %d failing' % (n, len(failures)), 'bounded': True}, 'assumptions': []}
+
+
+def _acc_state(doc, stage):
+    """the RunningOrder object reached from doc: stage 0 fresh, 1 after HISTORY, 2 after a further roReplace; the accessors are read
+    before every merge so that anything an accessor remembers is exposed when the XML changes underneath it"""
+    ro = RunningOrder.from_string(doc)
+    with warnings.catch_warnings():
+        warnings.simplefilter('ignore')
+        if stage >= 1:
+            check_ro(ro, [])
+            for kind, a in HISTORY:
+                try:
+                    ro += MosFile.from_string(msg(kind, **a)[0])
+                except Exception:
+                    pass
+        if stage >= 2:
+            check_ro(ro, [])
+            ro += MosFile.from_string(msg('RunningOrderReplace', new=['X1', 'X2'])[0])
+    return ro
 
 
 def search_C15(tier, rng): return search_accessors('C15', tier, rng)
@@ -280,7 +306,10 @@ def search_C17(tier, rng): return search_accessors('C17', tier, rng)
 
 def _replay_acc(prop, f):
     viol = []
-    check_ro(RunningOrder.from_string(f['ro']), viol)
+    if 'initial' in f:
+        check_ro(_acc_state(f['initial'], f['stage']), viol)
+    else:
+        check_ro(RunningOrder.from_string(f['ro']), viol)
     return any(p == prop for p, _ in viol)
 
 
@@ -592,6 +621,25 @@ def search_C18(tier, rng):
                 if not (rd.message_id == objs[0].message_id and rd.ro_id == objs[0].ro_id and rd.mos_type is type(objs[0])
                         and type(a) is type(objs[0]) and str(a) == str(objs[0]) and a is not b and str(b) == str(a)):
                     fail('reader metadata / restored object disagree with the message (%s)' % type(objs[0]).__name__, d)
+        # a document that is not UTF-8: its XML declaration decides, identically from bytes, a file and an S3 object
+        for enc in ('ISO-8859-1', 'UTF-16'):
+            raw = ('<?xml version="1.0" encoding="%s"?>' % enc + docs[0].replace('Ünï ☃ &amp; 𝄞', 'café ü')).encode(enc)
+            pth = os.path.join(tmp, 'enc-%s.mos.xml' % enc)
+            with open(pth, 'wb') as f:
+                f.write(raw)
+            s3mod.s3.objects['enc/%s.mos.xml' % enc] = raw
+            n += 1
+            res = []
+            for nm, mk in (('bytes', lambda: MosFile.from_string(raw)), ('file', lambda: MosFile.from_file(pth)),
+                           ('s3', lambda: MosFile.from_s3('bk', 'enc/%s.mos.xml' % enc)),
+                           ('s3 reader', lambda: MosReader.from_s3('bk', 'enc/%s.mos.xml' % enc).mos_object)):
+                try:
+                    o = mk()
+                    res.append((type(o).__name__, str(o)))
+                except Exception as e:
+                    res.append(('%s' % type(e).__name__, str(e)[:80]))
+            if len(set(res)) != 1 or 'café ü' not in res[0][1]:
+                fail('a %s-encoded document gives different results from bytes, file and S3 object: %s' % (enc, [r[0] for r in res]), 'enc ' + enc)
         # collections from the three constructors
         with warnings.catch_warnings():
             warnings.simplefilter('ignore')
@@ -622,13 +670,52 @@ def search_C18(tier, rng):
                     if got != exp:
                         fail('get_mos_files(prefix=%r) over %d keys in pages of %d returned %s, expected %s' % (prefix, len(objs2), page_size, got, exp),
                              'list %s %s %s' % (page_size, nkeys, prefix))
+        # key (listing) order that is not the numeric message id order: the three constructors must still agree
+        from oracles2 import mk_msgs
+        spec = [('roCreate', 8), ('append', 9), ('delete', 10), ('move', 100), ('roreplace', 1000), ('iteminsert', 1001)]
+        odocs = mk_msgs(spec)
+        keyed = sorted(zip(['o/%d.mos.xml' % m for _, m in spec], odocs))          # byte order: 10, 100, 1000, 1001, 8, 9
+        s3mod.s3 = FakeS3({k: d.encode('utf-8') for k, d in keyed}, 2)
+        opaths = []
+        for k, d in keyed:
+            pth = os.path.join(tmp, k.replace('/', '_'))
+            with open(pth, 'w', encoding='utf-8') as f:
+                f.write(d)
+            opaths.append(pth)
+        with warnings.catch_warnings():
+            warnings.simplefilter('ignore')
+            res = []
+            for nm, mk in (('strings', lambda: MosCollection.from_strings([d for _, d in keyed], allow_incomplete=True)),
+                           ('files', lambda: MosCollection.from_files(opaths, allow_incomplete=True)),
+                           ('s3', lambda: MosCollection.from_s3(bucket_name='bk', prefix='o/', allow_incomplete=True))):
+                n += 1
+                try:
+                    mc = mk()
+                    ids = [r.message_id for r in mc.mos_readers]
+                    mc.merge(strict=False)
+                    res.append((ids, str(mc)))
+                except Exception as e:
+                    res.append(('%s: %s' % (type(e).__name__, e),))
+            if len({json.dumps(r) for r in res}) != 1:
+                fail('collections from strings, files and S3 keys listed in byte order (10, 100, 1000, 1001, 8, 9) disagree: readers %s' % [r[0] for r in res],
+                     'keyorder')
+        # suffix matching is exact (keys and suffixes differing in case, a custom suffix)
+        objs3 = {k: b'x' for k in ('p/a.mos.xml', 'p/B.MOS.XML', 'p/c.Mos.Xml', 'p/d.xml', 'p/e.XML', 'p/f.mos.xml.bak', 'p/.mos.xml', 'p/gmos.xml')}
+        s3mod.s3 = FakeS3(objs3, 3)
+        for sfx in (None, '.mos.xml', '.MOS.XML', '.xml', '.XML', ''):
+            n += 1
+            got = s3mod.get_mos_files('bk', 'p/') if sfx is None else s3mod.get_mos_files('bk', 'p/', suffix=sfx)
+            exp = [k for k in objs3 if k.endswith('.mos.xml' if sfx is None else sfx)]
+            if got != exp:
+                fail('get_mos_files(suffix=%r) returned %s, expected %s' % (sfx, got, exp), 'suffix %s' % sfx)
     finally:
         s3mod.s3 = saved
         import shutil
         shutil.rmtree(tmp)
     return {'evaluations': n, 'distinct': n, 'failures': failures,
             'rule': '9 documents (Unicode content) via str, bytes, file and a fake S3 object; readers from the three constructors; collections from the three '
-                    'constructors; bucket listings of 0..14 keys in pages of 1, 2, 3, 50 with and without suffix, prefixes p/, empty and omitted',
+                    'constructors; ISO-8859-1 and UTF-16 encoded documents via bytes, file and S3 object; bucket listings of 0..14 keys in pages of 1, 2, 3, 50 '
+                    'with and without suffix, prefixes p/, empty and omitted; suffixes and keys differing in case',
             'summary': {'short': '%d source / reader / listing comparisons, %d failing' % (n, len(failures)), 'bounded': True},
             'assumptions': ['S3 is a fake paginator / object store installed in place of the lazy boto3 handles']}
 
@@ -691,7 +778,8 @@ def search_C19(tier, rng):
         names = list(files)
         # detect / inspect: every single file, pairs and triples with a bad one in every position
         lists = [[k] for k in names] + [list(p) for p in _it.permutations(['ro', 'missing', 'append'], 3)] + \
-                [['notxml', 'move', 'dir', 'swap'], ['unknown', 'completed', 'send'], names]
+                [['notxml', 'move', 'dir', 'swap'], ['unknown', 'completed', 'send'], names] + \
+                [['ro', 'append', 'ro'], ['append', 'append'], ['missing', 'ro', 'missing', 'ro']]      # a path listed twice is reported twice
         for cmd in ('detect', 'inspect'):
             for lst in lists:
                 argv = [cmd, '-f'] + [files[k] for k in lst]
@@ -721,6 +809,7 @@ def search_C19(tier, rng):
         sets = {'complete': ['ro', 'append', 'move', 'end'], 'incomplete': ['ro', 'append', 'swap'], 'failing': ['ro', 'bad', 'append', 'end'],
                 'invalid': ['append', 'end'], 'unreadable': ['ro', 'missing', 'end'], 'after_end': ['ro', 'end', 'roreplace']}
         sets['after_end'] = ['ro', 'append', 'end']
+        sets['listed_twice'] = ['ro', 'append', 'append', 'end', 'ro']
         for sname, lst in sets.items():
             for inc, ns, of in _it.product((False, True), (False, True), (False, True)):
                 outp = os.path.join(tmp, 'out.xml')
